@@ -2,7 +2,7 @@
    Nothing but statements, `exact`, Print Assumptions. *)
 From Coq Require Import List NArith Bool.
 From FwdLib Require Import Bytes.
-From G03 Require Import Tables ReplyReader Socks ObligationsReply.
+From G03 Require Import Tables ReplyReader Socks Lookup ObligationsReply.
 Import ListNotations.
 Open Scope N_scope.
 
@@ -38,3 +38,14 @@ Print Assumptions T03_socks5_stream_intact.
 
 Example T03_no_overread_socks5_example : socks_example_ok = true.
 Proof. exact ob_socks_example. Qed.
+
+(* Half-close on whatever the dialer or a custom ConnectFunc returned: the proxy finds CloseWrite on
+   it exactly when a component that has it is reachable through exported fields (of the struct the
+   value is, points to, or holds in an interface) — for every value. *)
+Theorem T03_closewrite_found_iff_reachable : forall v,
+  as_close_writer v = true <-> exists w, reach v w /\ v_impl w = true.
+Proof. exact as_close_writer_spec. Qed.
+Print Assumptions T03_closewrite_found_iff_reachable.
+
+Example T03_closewrite_example : lookup_example_ok = true.
+Proof. exact ob_lookup_example. Qed.
